@@ -2,8 +2,9 @@ import Reduino.Gen.Layout
 import Reduino.Lang.Layout
 /-
   Obligations on the TRANSLATED character-level layout functions (`Gen/Layout.lean`: the Lean text `harness/pytolean.py` writes from
-  the source of `_indent_of` and `_strip_inline_comment` in /repo/src/Reduino/transpile/parser.py on every run): each is equal, on EVERY
-  input, to the hand-written model the C07 theorems are stated about (`Lang.Layout.indentOf`, `Lang.Layout.stripInlineComment`).
+  the source of `_indent_of`, `_strip_inline_comment` and (W21) `_collect_block` in /repo/src/Reduino/transpile/parser.py on every run): each is equal, on EVERY
+  input, to the hand-written model the C07 theorems are stated about (`Lang.Layout.indentOf`, `Lang.Layout.stripInlineComment`; for `_collect_block` the raw-line model `Lang.Layout.collectBlockAt`, which
+  `Props.C07.collectBlock_is_raw` relates to the collector over classified lines).
   An edit of the Python functions changes the generated definitions; if the new loop is not extensionally the model, the proof of
   that name fails and C07 reports the obligation as broken.
 
@@ -73,5 +74,50 @@ theorem gen_stripInlineComment (s : List Char) : Gen.Layout.stripInlineComment s
   show _ = (stripGo ⟨false, false, false⟩ [] s).getD s
   rw [← h]
   cases Gen.Layout.stripInlineComment.go s ⟨false, false, false⟩ 0 s <;> simp [retOf_ret, retOf_fell]
+
+/-! ### `_collect_block` (W21) -/
+
+theorem dropWhile_snoc_ne_nil {p : Char → Bool} (l : List Char) (c : Char) (h : p c = false) : (l ++ [c]).dropWhile p ≠ [] := by
+  induction l with
+  | nil => simp [List.dropWhile, h]
+  | cons a t ih =>
+    simp only [List.cons_append, List.dropWhile]
+    cases p a <;> simp [ih]
+
+/-- `not s.strip()` holds exactly of the lines made of blanks -/
+theorem strip_isEmpty (s : List Char) : (strip s).isEmpty = isBlankLine s := by
+  induction s with
+  | nil => simp [strip, rstrip, isBlankLine]
+  | cons c t ih =>
+    cases hc : isSpace c
+    · have : (rstrip (c :: t)) ≠ [] := by
+        unfold rstrip
+        intro h
+        have h' := congrArg List.reverse h
+        simp only [List.reverse_reverse, List.reverse_nil, List.reverse_cons] at h'
+        exact dropWhile_snoc_ne_nil _ c hc h'
+      simp [strip, List.dropWhile, hc, isBlankLine, this]
+    · simpa [strip, List.dropWhile, hc, isBlankLine] using ih
+
+/-- the translated `_collect_block` is the raw-line model `collectBlockAt` on every list of lines and every start index (the header line
+    `lines[start]` read as the empty line when out of range, on both sides).  Inside: the loop `while i < len(lines)`, from any index and
+    any block collected so far, never `return`s and leaves with the model's block appended and the index advanced by its length.
+    `_indent_of` inside the loop is the TRANSLATED `_indent_of` (`gen_indentOf` carries it to the model). -/
+theorem gen_collectBlock (lines : List (List Char)) (start : Nat) :
+    Gen.Layout.collectBlock lines start = collectBlockAt lines start := by
+  have go : ∀ (ls : List (List Char)) (base i : Nat) (acc : List (List Char)),
+      Gen.Layout.collectBlock.go base ⟨i, acc⟩ ls
+        = .fell ⟨i + (collectBlockRaw base ls).1.length, acc ++ (collectBlockRaw base ls).1⟩ := by
+    intro ls
+    induction ls with
+    | nil => intro base i acc; simp [Gen.Layout.collectBlock.go, collectBlockRaw]
+    | cons l rest ih =>
+      intro base i acc
+      by_cases hb : isBlankLine l = true
+      · simp [Gen.Layout.collectBlock.go, collectBlockRaw, strip_isEmpty, gen_indentOf, hb, ih]; omega
+      · by_cases hi : indentOf l ≤ base
+        · simp [Gen.Layout.collectBlock.go, collectBlockRaw, strip_isEmpty, gen_indentOf, hb, hi]
+        · simp [Gen.Layout.collectBlock.go, collectBlockRaw, strip_isEmpty, gen_indentOf, hb, hi, ih]; omega
+  simp [Gen.Layout.collectBlock, collectBlockAt, go, gen_indentOf]
 
 end Reduino.GenOb
